@@ -10,7 +10,8 @@
               C15_pool_add_failure_keeps_constants, C15_pool_add_ok_findable_and_stable, C15_pool_run_offsets_stable,
               C15_holder_step_atomic, C15_holder_ok_is_failure_free, C15_holder_run_failed_ops_vanish,
               C15_holder2_step_atomic, C15_holder2_run_failed_ops_vanish (sections, address table, call imm),
-              C15_builder_step_atomic (Builder label/section/instruction nodes)
+              C15_builder_step_atomic (Builder label/section/instruction nodes),
+              C15_vm_step_no_leak (VirtMem views + JitAllocator block records, two oracles)
    refuted  : C15_embed_label_pinned_refuted, C15_embed_delta_pinned_refuted, C15_call_abs_pinned_refuted (the code before C15-stale-reloc)
               C15_add_address_lazy_section_refuted (the lazily created .addrtab section survives a failed add - benign)
               C15_pool_add_size_atomic_refuted, C15_pool_add_ok_not_failure_free_refuted (ConstPool::add is atomic only in its
@@ -248,8 +249,9 @@ Print Assumptions C15_add_address_lazy_section_refuted.
 
 (* ------------------------------------------------------------------------------------------- BaseBuilder node creation *)
 
-(* new_label (CodeHolder label + label node), bind (label_node_of + add_node), section (section_node_of + activation), an
-   instruction node: under every oracle a step that does not report success leaves the node list, the cursor and the set of bound
+(* new_label (CodeHolder label + label node), bind (label_node_of + add_node), section (section_node_of + activation / cursor),
+   instruction / align / embed / embed_label / comment nodes, set_cursor, embed_const_pool (as repaired by C15-embed-const-pool-atomic):
+   under every oracle a step that does not report success leaves the node list, the cursor and the set of bound
    labels untouched (and, for kOutOfMemory, every label/section keeps exactly the node it had); the holder is untouched except
    that a failed new_label may leave an ORPHAN label behind (CodeHolder::new_label_id had succeeded; no node refers to it).  A
    successful step has the oracle-free effect bld_spec on the node list. *)
@@ -260,7 +262,7 @@ Theorem C15_builder_step_atomic :
        bld_list b' = bld_list b /\ h2_sects h' = h2_sects h /\
        (holder_content (h2_base h') = holder_content (h2_base h) \/
         (op = BNewLabel /\ holder_content (h2_base h') = (ho_labels (h2_base h) ++ [mklabel false []], ho_relocs (h2_base h), ho_unresolved (h2_base h))))) /\
-    (r = Oom -> same_nodes (b_lnodes b) (b_lnodes b') /\ same_nodes (b_snodes b) (b_snodes b')) /\
+    (r = Oom -> is_const_pool op = false -> same_nodes (b_lnodes b) (b_lnodes b') /\ same_nodes (b_snodes b) (b_snodes b')) /\
     (r = Ok ->
        bld_list b' = bld_spec op (bld_list b) /\ h2_sects h' = h2_sects h /\
        match op with
@@ -269,3 +271,71 @@ Theorem C15_builder_step_atomic :
        end).
 Proof. exact builder_step_atomic. Qed.
 Print Assumptions C15_builder_step_atomic.
+
+(* ------------------------------------------------------------------------------ VirtMem views / JitAllocator block records *)
+
+(* VirtMem::alloc / alloc_dual_mapping (RX then RW view of one anonymous file) / release, JitAllocator_new_block (views, then the
+   malloc'ed block record) / deleteBlock, for EVERY pair of oracles (okv: does the k-th mmap succeed, okh: the k-th malloc):
+   an operation that does not report success leaves the set of live views and the number of live block records exactly as they
+   were - nothing leaks, nothing is lost; a successful allocation adds exactly its own fresh views. *)
+Theorem C15_vm_step_no_leak :
+  forall (okv okh : nat -> bool) (op : vmop) (s : vms) (kv kh : nat) (r : result) (s' : vms) (kv' kh' : nat),
+    vms_inv s -> vm_step okv okh op s kv kh = (r, s', kv', kh') ->
+    vms_inv s' /\
+    (r <> Ok -> vs_views s' = vs_views s /\ vs_heap s' = vs_heap s) /\
+    (r = Ok -> match op with
+               | VMap => exists i, vs_views s' = vs_views s ++ [i] /\ vs_heap s' = vs_heap s
+               | VDual => exists ids, vs_views s' = vs_views s ++ ids /\ length ids = 2%nat /\ vs_heap s' = vs_heap s
+               | VBlock dual => exists ids, vs_views s' = vs_views s ++ ids /\ length ids = (if dual then 2 else 1)%nat /\ vs_heap s' = S (vs_heap s)
+               | VRel i => exists ids, nth i (vs_handles s) None = Some ids /\ vs_views s' = remove_ids ids (vs_views s) /\ vs_heap s' = vs_heap s
+               | VDel i => exists ids, nth i (vs_handles s) None = Some ids /\ vs_views s' = remove_ids ids (vs_views s) /\ vs_heap s' = pred (vs_heap s)
+               end).
+Proof. exact vm_step_no_leak. Qed.
+Print Assumptions C15_vm_step_no_leak.
+
+Example C15_vm_step_no_leak_satisfiable : vms_inv vms_init.
+Proof. exact vms_init_inv. Qed.
+
+(* the roll-back that unmaps the view that was NOT mapped (seeded change C15-3) leaks the first view *)
+Theorem C15_vm_dual_leaky_refuted :
+  exists okv s, let '(a, s', _) := vm_dual_leaky okv s 0%nat in a = None /\ vs_views s' <> vs_views s.
+Proof. exact vm_dual_leaky_refuted. Qed.
+Print Assumptions C15_vm_dual_leaky_refuted.
+
+(* ----------------------------------------------------------------------------------- register allocator home (stack) slots *)
+
+(* RAStackAllocator::new_slot / BaseRAPass::get_or_create_stack_slot (tested call sites, RGet) and work_reg_as_mem (RAsMem, which
+   cannot report a failure): under every oracle the slot list stays duplicate-free and "has a home" = "owns a slot"; a tested
+   creation that fails changes nothing. *)
+Theorem C15_ra_step_spec :
+  forall (ok : nat -> bool) (op : raop) (s : rastack) (k : nat) (r : result) (s' : rastack) (k' : nat),
+    ra_inv s -> (match op with RGet w | RAsMem w => w < length (ra_home s) end)%nat ->
+    ra_step ok op s k = (r, s', k') ->
+    ra_inv s' /\ length (ra_home s') = length (ra_home s) /\
+    match op with
+    | RGet w => ra_refs s' = ra_refs s /\
+                ((r = Ok /\ has_home s' w = true) \/ (r = Oom /\ ra_slots s' = ra_slots s /\ ra_home s' = ra_home s))
+    | RAsMem w => r = Ok /\ ra_refs s' = w :: ra_refs s
+    end.
+Proof. exact ra_step_spec. Qed.
+Print Assumptions C15_ra_step_spec.
+
+(* the rewrite step with the test of f186c27 never uses a missing slot ... *)
+Theorem C15_ra_rewrite_safe :
+  forall (s : rastack), ra_rewrite s = Ok -> forall w, In w (ra_refs s) -> has_home s w = true.
+Proof. exact ra_rewrite_safe. Qed.
+Print Assumptions C15_ra_rewrite_safe.
+
+(* ... and the test is needed: two failed creations leave a referenced register without a home (the null dereference found in
+   round 2 by the second-order enumeration) *)
+Theorem C15_ra_as_mem_unchecked_refuted :
+  exists ok ops, let '(_, s, _) := ra_run ok ops (ras_init 2) 0%nat in exists w, In w (ra_refs s) /\ has_home s w = false.
+Proof. exact ra_as_mem_unchecked_refuted. Qed.
+Print Assumptions C15_ra_as_mem_unchecked_refuted.
+
+(* embed_const_pool before fixes/C15-embed-const-pool-atomic.patch (fixed = false): the align node and the bound label stay when the
+   data node cannot be allocated *)
+Theorem C15_builder_const_pool_partial_refuted :
+  exists ok h b, let '(r, _, b', _) := builder_step_gen ok false (BConstPool 0) h b 0%nat in r = Oom /\ bld_list b' <> bld_list b.
+Proof. exact const_pool_partial_refuted. Qed.
+Print Assumptions C15_builder_const_pool_partial_refuted.
